@@ -94,3 +94,13 @@ const VerifEventInChLength = eventInChLength
 
 // VerifDataHashForEmptyTxs returns the empty-block data hash constant.
 func VerifDataHashForEmptyTxs() []byte { return append([]byte(nil), dataHashForEmptyTxs...) }
+
+// VerifRepublishCommitted runs the start-up step of the aggregation loop that hands the blocks committed by an
+// earlier run to the P2P stores.
+func (m *Manager) VerifRepublishCommitted(ctx context.Context) error {
+	height, err := m.store.Height(ctx)
+	if err != nil {
+		return err
+	}
+	return m.republishCommitted(ctx, height)
+}
